@@ -1306,6 +1306,27 @@ func (e *specEnv) call(n *ECall) sval {
 			return sval{t: t, math: true}
 		}
 		return sval{t: "((_ int2bv 64) " + t + ")", math: true, w: 64}
+	case "called": // called(x): the call whose results are bound to x (bind clause) was executed on this path
+		id, ok := n.Args[0].(*EIdent)
+		if !ok {
+			e.fail("called needs a bound name")
+		}
+		v, ok := e.vars[id.Name+"$called"]
+		if !ok {
+			return sval{t: "false", typ: boolT} // the call has not been encoded (yet) on any path reaching this point
+		}
+		return v
+	case "argof":
+		id, ok := n.Args[0].(*EIdent)
+		idx, ok2 := n.Args[1].(*ENum)
+		if !ok || !ok2 {
+			e.fail("argof(name, index)")
+		}
+		v, ok := e.vars[id.Name+"$a"+idx.Text]
+		if !ok {
+			e.fail("argof: %s has no argument %s bound here", id.Name, idx.Text)
+		}
+		return v
 	case "kcalls":
 		t := ghostGet(e.st, "$kcalls", "0")
 		return e.goIntFromInt(t)
